@@ -1,4 +1,5 @@
 import Drivers.PenShow
+import DimodModel.PenaltyOpts
 open Wire Pen PenShow
 
 /-! Line-protocol driver for the C16 models (`DimodModel/Penalty.lean`).  Every line is self-contained.
@@ -176,6 +177,12 @@ def answer (line : String) : String :=
       | some e => "ok " ++ String.intercalate "," (e.map fun p => s!"{showLabel p.1}={p.2}")
       | none => "err"
     | _, _ => "bad-op"
+  | ["slack2", s] =>
+    -- round 7: only the log2 coefficient list over the rule extracted from the source (any S, no digit lists)
+    match s.toNat? with
+    | some S => String.intercalate "," ((Pen.slackLog2Bqm (fun _ => 0) S).map toString) ++ ";" ++
+        String.intercalate "," ((Pen.slackLog2Dqm (fun _ => 0) S).map toString)
+    | none => "bad-op"
   | ["slack", s] =>
     match s.toNat? with
     | some S =>
